@@ -312,6 +312,7 @@ func (g *Gen) load(patterns []string) error {
 func (g *Gen) newFnGen(fn *ssa.Function, ct *Contract, name string) *FnGen {
 	fg := &FnGen{g: g, fn: fn, ct: ct, name: name, memo: map[string]*Term{}, stateSorts: map[string]string{},
 		counters: map[string]int{}, notes: map[string]bool{}, paramEnv: map[string]CVal{}}
+	resetRefAges()
 	fg.gens = append(fg.gens, &genInfo{kind: "init"})
 	fg.initState = &State{gen: 0, over: map[string]*Term{}}
 	if ct != nil {
@@ -806,7 +807,7 @@ func relevant(assumes []*Term, goal *Term, defs map[string]*FunDef) []*Term {
 }
 
 func (g *Gen) solveObligation(o *Obligation, workdir string, timeoutS int, all bool) OblResult {
-	var asserts []*Term
+	var asserts, origAsserts []*Term
 	var vals []*Term
 	if o.ExpectSat {
 		asserts = append(asserts, o.Assumes...)
@@ -817,6 +818,10 @@ func (g *Gen) solveObligation(o *Obligation, workdir string, timeoutS int, all b
 		}
 		asserts = append(asserts, relevant(o.Assumes, o.Goal, dm)...)
 		asserts = append(asserts, Not(o.Goal))
+		origAsserts = asserts
+		if os.Getenv("GOVC_NOINST") == "" {
+			asserts = instantiate(asserts)
+		}
 		for _, in := range o.Inputs {
 			switch in.Term.Sort {
 			case SInt, SBool, SString:
@@ -832,21 +837,37 @@ func (g *Gen) solveObligation(o *Obligation, workdir string, timeoutS int, all b
 	if o.ExpectSat && timeoutS > 3 {
 		timeoutS = 3
 	}
+	// quantified queries: the string-abstracted variant (strings as an uninterpreted sort: sound for discharging only)
+	// runs beside the exact one, so that a proof that needs only instantiation does not wait for the string solvers
+	quantified := false
+	if !o.ExpectSat {
+		for _, a := range asserts {
+			if hasQuant(a) || hasStrConcat(a) {
+				quantified = true
+				break
+			}
+		}
+	}
+	var absCh chan SolveResult
+	if quantified {
+		absCh = make(chan SolveResult, 1)
+		absScript := ScriptAbstract(asserts, defs)
+		go func() { absCh <- Solve(absScript, workdir, o.Name+"__abs", timeoutS, false) }()
+	}
 	r := Solve(script, workdir, o.Name, timeoutS, all)
-	if !o.ExpectSat && (r.Status == "unknown" || r.Status == "timeout") {
-		// attempt with strings abstracted to an uninterpreted sort (sound for discharging only)
-		ra := Solve(ScriptAbstract(asserts, defs), workdir, o.Name+"__abs", timeoutS, false)
-		if ra.Status == "unsat" {
+	if absCh != nil && (r.Status == "unknown" || r.Status == "timeout") {
+		if ra := <-absCh; ra.Status == "unsat" {
 			ra.Solver += "(string-abstracted)"
 			r = ra
 		}
 	}
+	var candidate *SolveResult
 	if !o.ExpectSat && (r.Status == "unknown" || r.Status == "timeout") {
 		// second attempt without the quantified assumptions (dropping assumptions is always sound): string goals that
 		// only need the quantifier-free facts are then within reach of the string solvers
 		var qf []*Term
 		dropped := 0
-		for _, a := range asserts[:len(asserts)-1] {
+		for _, a := range origAsserts[:len(origAsserts)-1] {
 			if hasQuant(a) {
 				dropped++
 				continue
@@ -854,26 +875,41 @@ func (g *Gen) solveObligation(o *Obligation, workdir string, timeoutS int, all b
 			qf = append(qf, a)
 		}
 		if dropped > 0 {
-			qf = append(qf, asserts[len(asserts)-1])
+			qf = append(qf, origAsserts[len(origAsserts)-1])
 			r2 := Solve(ScriptD(qf, vals, defsUsed(o.fg.defsOrNil(), qf)), workdir, o.Name+"__qf", timeoutS, all)
 			if r2.Status == "unsat" {
 				r2.Solver += "(qf-assumptions)"
 				r = r2
 			} else if r2.Status == "sat" {
-				// a model of the relaxed query is only a candidate counterexample: replay on the real code decides
+				// a model of the relaxed query is only a candidate counterexample: it is used (for replay on the real
+				// code) only if the longer attempts below do not decide the obligation
 				r2.Solver += "(candidate model from the quantifier-free relaxation)"
-				r = r2
+				candidate = &r2
 			}
 		}
 	}
 	if !o.ExpectSat && (r.Status == "unknown" || r.Status == "timeout") {
-		// last resort before reporting an undischarged obligation: the same query with a longer time limit (a loaded
+		// last resort before reporting an undischarged obligation: the same queries with a longer time limit (a loaded
 		// machine must not turn into an alarm)
+		var abs4 chan SolveResult
+		if quantified {
+			abs4 = make(chan SolveResult, 1)
+			absScript := ScriptAbstract(asserts, defs)
+			go func() { abs4 <- Solve(absScript, workdir, o.Name+"__abs_retry", timeoutS*4, false) }()
+		}
 		r3 := Solve(script, workdir, o.Name+"__retry", timeoutS*4, false)
 		if r3.Status == "unsat" || r3.Status == "sat" {
 			r3.Solver += "(retry)"
 			r = r3
+		} else if abs4 != nil {
+			if ra := <-abs4; ra.Status == "unsat" {
+				ra.Solver += "(string-abstracted, retry)"
+				r = ra
+			}
 		}
+	}
+	if candidate != nil && (r.Status == "unknown" || r.Status == "timeout") {
+		r = *candidate
 	}
 	res := OblResult{Name: o.Name, Kind: o.Kind, Solver: r.Solver, Secs: r.Secs, Raw: r.Status, All: r.All, Pos: o.Pos, Src: o.Src, Note: o.Note, obl: o,
 		SmtFile: filepath.Join(workdir, sanitize(o.Name)+".smt2")}
